@@ -127,6 +127,15 @@ claim("C13",
       "with its occupant.",
       "Not decided: interleavings of the unlocked table reads on the message path, expiry timing.")
 
+claim("C12",
+      "entry-point containment rule (deferred recover dominating all work), table-literal vs invocation nil-guard rule, path-fact bounds rule on client-controlled sizes, loop-progress analysis over the untrusted call cone",
+      "Decides the containment and guard structure between an arbitrary DNS message and a crash or unbounded work: the handler registered with miekg/dns "
+      "and the client's answer decoder both run under a deferred recover() installed before any message-derived work; every invoked func-typed field of "
+      "the command table is non-nil in all entries or nil-tested before each call; client-requested sizes reach allocations / the stored fragment size "
+      "only on paths with constant upper (and, for the stride, positive lower) bounds; every data-driven loop in the untrusted cone changes a loop-carried "
+      "exit variable on every cyclic path.",
+      "Not decided: numeric time/allocation bounds, miekg's own parsing, unrecoverable runtime errors. miekg's one-question rule and lack of recover are trusted facts.")
+
 for pid in ["C01","C02","C03","C04","C05","C06","C07","C08","C09","C10","C11","C12","C13","C14","C15","C16","C17","C18"]:
     if pid not in P:
         na(pid, PENDING)
